@@ -5,7 +5,7 @@ import scen_common
 PID = "C11"
 PROP_V = ["Props/Properties_C11.v"]
 GEN_MODULES = ["Consts", "Sites"]
-FLOW_FILES = ['wait.c']
+FLOW_FILES = ['wait.c', 'cv.c', 'note.c', 'counter.c']
 REPLAY_HINT = "VRT_SEED=<seed> [VRT_NOBJ=<n>] [VRT_KIND=<k>] _work/h/waitn_mix"
 PARTIAL = ["C11_mutex is proved in state form (C11_mutex_state / C11_sleeps_unlocked / C11_mutex_held_on_return): a caller that held mu at the call holds it "
            "through the first loop and the whole enqueue loop; it does not hold it at any pc between the unlock callback and the return, in particular while it "
